@@ -1,4 +1,5 @@
 import Beetswap.Proofs.NetDefs
+import Beetswap.Proofs.NetMeasure
 import Std.Data.HashSet
 /-! Scratch: executable falsification of the candidate statements of `Proofs/Net.lean`.
 Not imported by anything.  Run natively (see NET_NOTES.md) or with `#eval` for small sizes. -/
@@ -227,7 +228,7 @@ def binvB (s : State) : List String := Id.run do
   v := chk "b.cl" (s.b.client.tasks.isEmpty && s.b.client.runq.isEmpty && s.b.client.queue.isEmpty && s.b.client.newBlocks.isEmpty) v
   v := chk "b.ids_nodup" ((sv.tasks.map (·.id)).eraseDups.length == sv.tasks.length) v
   v := chk "b.ids_lt" (sv.tasks.all fun t => t.id < sv.nextTask) v
-  v := chk "b.sched" (sv.tasks.all fun t => sv.runq.contains t.id ||
+  v := chk "b.sched" (sv.tasks.all fun t => (sv.runq.contains t.id && (isWaitingB t.st).isNone) ||
         (match t.st, t.todo with
          | .waiting n, k :: _ => s.callsB.contains (n, k)
          | _, _ => false)) v
@@ -269,7 +270,7 @@ def ainvB (cids : List Nat) (g : GS) : List String := Id.run do
   v := chk "a.queue_ok" (c.queue.all (isRespOk s)) v
   v := chk "a.ids_nodup" ((c.tasks.map (·.id)).eraseDups.length == c.tasks.length) v
   v := chk "a.ids_lt" (c.tasks.all fun t => t.id < c.nextTask) v
-  v := chk "a.sched" (c.tasks.all fun t => c.runq.contains t.id ||
+  v := chk "a.sched" (c.tasks.all fun t => (c.runq.contains t.id && (t.aborted || (isWaitingA t.st).isNone)) ||
         (match t.st with
          | .waiting n => (s.callsA.map (·.1)).contains n || s.putsA.contains n
          | _ => false)) v
@@ -325,6 +326,23 @@ def iacts (s : State) : Array Act := Id.run do
   if !s.wireBA.isEmpty then a := a.push .deliverBA
   return a
 
+/-! ### The measure of `NetMeasure.lean` -/
+
+def measCheck (s : State) : List String := Id.run do
+  let mut v : List String := []
+  let m := meas s
+  for a in iacts s do
+    let s' := step s a
+    let m' := meas s'
+    if !decide (m'.le m) then v := v ++ [s!"meas.le {actName a} {repr m} -> {repr m'}"]
+    let strict : Bool := match a with
+      | .drainA => !s.a.client.runq.isEmpty || !s.a.client.queue.isEmpty || !(Node.step s.a (.drain [] [])).2.1.isEmpty
+      | .drainB => !s.b.server.runq.isEmpty || !(Node.step s.b (.drain [] [])).2.1.isEmpty
+      | _ => true   -- iacts only lists enabled completions / deliveries
+    if strict && !decide (m'.lt m) then v := v ++ [s!"meas.lt {actName a} {repr m} -> {repr m'}"]
+  if !quiescent s && !decide ((meas (round s)).lt m) then v := v ++ [s!"meas.round {repr m} -> {repr (meas (round s))}"]
+  return v
+
 def gsettleMin (cap : Nat) (g : GS) : Nat × GS := Id.run do
   let mut g := g
   for i in List.range cap do
@@ -345,7 +363,7 @@ def gsettleMin (cap : Nat) (g : GS) : Nat × GS := Id.run do
 /-- invariant check on ghost states + Clean after refresh from quiescence (checked at every state of
 a random internal schedule after the first drainA). -/
 def gcheck (cfg : Cfg) (g : GS) (rnd : Nat) : List String × Nat := Id.run do
-  let mut v := binvB g.s ++ ainvB cfg.cids g ++ xinvB cfg.cids g
+  let mut v := binvB g.s ++ ainvB cfg.cids g ++ xinvB cfg.cids g ++ measCheck g.s
   let mut rnd := rnd
   let (n, t) := gsettleMin cfg.cap g
   if n > cfg.cap then v := v ++ ["settle"]
@@ -427,3 +445,17 @@ def main (args : List String) : IO Unit := do
   IO.println s!"states {r.states} trans {r.trans} maxSettle {r.maxSettle}"
   for (n, tr) in r.viol do
     IO.println s!"VIOLATION {n}: {tr}"
+
+/-
+Runs performed (native binary, see NET_NOTES.md), store = {0 ↦ 100, 1 ↦ 101}, CIDs {0,1,2}:
+* original model (before fix A): `bfs 6 0` → VIOLATION gap / closed / agreeEq after `get 0, drainA, refresh`;
+  `walk 60 0 4 2 3 20000 111` → additionally VIOLATION agree (peer 1 of a dropped by the late-ack timeout).
+* fixed model: `bfs 16 0 2 1 2` (42 776 states), `bfs 11 0 3 1 3` (681 230 states, 3 088 933 transitions),
+  `bfs 9 0 4 2 3` (1 532 520 states, 4 239 877 transitions), `walk 60 0 4 2 3 20000 111` (1.2 M),
+  `walk 150 0 8 4 3 4000 999` (0.6 M), `walk 40 0 4 2 3 30000 4242` (1.2 M): no violation, maxSettle 5.
+* `scen n` (n = 1,2,3,4,6,10,20) → rounds n + 2: no numeral `settleRounds` works.
+* `cap 1025` → (1025 rounds, 1 round after refresh, CID 1024 still wanted, |record of b| = 1024).
+* invariant / measure validation: `gbfs 7 0 4 2 3` (118 496 states), `gbfs 14 0 2 1 2`, `gbfs 9 0 3 1 3`
+  (299 362 states), `gbfs 8 0 4 2 3`, `gwalk` 60/150/40/100/120-step walks (≈ 1.8 M transitions): every
+  conjunct of `NInv`, `Clean` after refresh, `meas` non-increasing / strictly decreasing: no violation.
+-/
